@@ -4,8 +4,9 @@ CONSTANTS
   BlockSpots <- Spots1
   CidrOverlap <- TabOverlap
   CidrCovers <- TabCovers
+  MaxFail = 0
   Ties = FALSE
-INIT Init
+INIT IInit
 NEXT INext
-INVARIANTS TypeOK RefinesP Idempotent TrueNeverOverlaps
+INVARIANTS TypeOK RefinesP RefinesPF Idempotent TrueNeverOverlaps
 CHECK_DEADLOCK FALSE
